@@ -229,6 +229,13 @@ class Evaluator:
                 raise Unfoldable(f'{d}: {ex}')
         if isinstance(e.func, ast.Attribute):
             recv = self.ev(e.func.value, env)
+            # containers built inside the interpreted function may be filled in place (the interpreter owns them; callers pass copies of inputs)
+            for typ, names in MUTATORS.items():
+                if type(recv) is typ and e.func.attr in names:
+                    try:
+                        return getattr(recv, e.func.attr)(*args, **kwargs)
+                    except Exception as ex:
+                        raise Unfoldable(f'{e.func.attr}: {ex}')
             for typ, names in PURE_METHODS.items():
                 if isinstance(recv, typ) and e.func.attr in names:
                     try:
@@ -254,6 +261,9 @@ def fold(e, env=None):
 # ---------------------------------------------------------------------------------------------------------------
 # Small-step interpreter for *pure* helper functions over a finite abstract domain (used to enumerate abstract cases such as
 # "(q1 < q2, q1 == q2, q1 > q2) x (same base / different base)"; never used on input data).
+MUTATORS = {list: {'append', 'extend', 'pop', 'insert', 'clear', 'sort', 'reverse'}, dict: {'update', 'setdefault', 'pop', 'clear'}, set: {'add', 'discard', 'update', 'remove'}}
+
+
 class _Return(Exception):
     def __init__(self, v):
         self.v = v
